@@ -26,6 +26,8 @@ type c17Case struct {
 	Name     string `json:"name"`
 	Position string `json:"position"` // recipient | identity | bare | cli-r | cli-i | cli-j
 	DotPath  bool   `json:"dotPath"`  // PATH starts with "."
+	RelPath  string `json:"relPath"`  // PATH starts with a named relative entry ("bin", "./bin")
+	Switch   bool   `json:"switch"`   // use the plugin twice, PATH pointing at another directory the second time
 }
 
 var c17Valid = regexp.MustCompile(`^[A-Za-z0-9+._-]+$`)
@@ -114,7 +116,7 @@ func c17Check(c c17Case, st *stats.Run) error {
 			class = "name-with-separator"
 		}
 	}
-	st.Case(bechOK, stats.HashJSON(c), "pos="+c.Position, class, fmt.Sprintf("dotPath=%v", c.DotPath))
+	st.Case(bechOK, stats.HashJSON(c), "pos="+c.Position, class, fmt.Sprintf("dotPath=%v", c.DotPath), fmt.Sprintf("relPath=%v", c.RelPath != ""), fmt.Sprintf("path-switch=%v", c.Switch))
 	st.Sample(c.Position+"/"+class, c)
 	d, err := c17Setup(c.Name, true)
 	if err != nil {
@@ -133,6 +135,20 @@ func c17Check(c c17Case, st *stats.Run) error {
 	path := d.d1 + string(os.PathListSeparator) + d.d2
 	if c.DotPath {
 		path = "." + string(os.PathListSeparator) + path
+	}
+	if c.RelPath != "" && valid {
+		// the plugin is reachable only through a relative PATH entry; the same
+		// relative path also exists under the temp directory
+		for _, base := range []string{d.cwd, d.tmp} {
+			for _, n := range []string{c.Name, strings.ToLower(c.Name)} {
+				hx.InstallPlugin(d.root, filepath.Join(base, filepath.Clean(c.RelPath)), n, nil)
+			}
+		}
+		for _, dir := range []string{d.d1, d.d2} {
+			os.RemoveAll(dir)
+			os.MkdirAll(dir, 0o755)
+		}
+		path = c.RelPath + string(os.PathListSeparator) + d.d1
 	}
 	os.Setenv("PATH", path)
 	os.Setenv("TMPDIR", d.tmp)
@@ -198,11 +214,38 @@ func c17Check(c c17Case, st *stats.Run) error {
 	if c.DotPath && len(starts) == 0 && uerr != nil {
 		return nil // execabs refuses to run a program found through "."
 	}
+	if c.RelPath != "" {
+		// a relative PATH entry: either nothing is started (and an error is
+		// returned), or the program found relative to the working directory
+		if len(starts) == 0 && uerr != nil {
+			return nil
+		}
+		rel := filepath.Join(d.cwd, filepath.Clean(c.RelPath), "age-plugin-"+wantName)
+		if len(starts) == 1 && starts[0].Data == rel {
+			return nil
+		}
+		return pbt.Failf("C17/wrong-program", "PATH entry %q is relative: started %+v (err %v); only %s or nothing is acceptable", c.RelPath, starts, uerr, rel)
+	}
 	if len(starts) != 1 {
 		return pbt.Failf("C17/wrong-program", "using plugin %q started %d processes (%+v), want exactly one: %s (err %v)", c.Name, len(starts), starts, wantExe, uerr)
 	}
 	if starts[0].Data != wantExe {
 		return pbt.Failf("C17/wrong-program", "using plugin %q started %s, the PATH search for age-plugin-%s gives %s", c.Name, starts[0].Data, wantName, wantExe)
+	}
+	if c.Switch {
+		os.Setenv("PATH", d.d2)
+		pbt.Watchdog(30*time.Second, func() {
+			if rec != nil {
+				rec.Wrap(make([]byte, 16))
+			} else {
+				id.Unwrap([]*age.Stanza{{Type: "c17", Args: []string{"arg"}, Body: []byte("b")}})
+			}
+		})
+		all := c17Starts(d)
+		want2 := filepath.Join(d.d2, "age-plugin-"+wantName)
+		if len(all) != 2 || all[1].Data != want2 {
+			return pbt.Failf("C17/wrong-program", "second use of plugin %q after PATH changed to %s started %+v, want %s", c.Name, d.d2, all[1:], want2)
+		}
 	}
 	wantArg := "--age-plugin=identity-v1"
 	if rec != nil {
@@ -401,6 +444,12 @@ func TestC17(t *testing.T) {
 
 	pbt.Rapid(s, "names", s.N(1500, 8000), func(t *rapid.T) c17Case {
 		c := c17Case{Name: c17GenName(t), Position: rapid.SampledFrom([]string{"recipient", "identity", "bare", "bare"}).Draw(t, "position"), DotPath: rapid.IntRange(0, 5).Draw(t, "dot") == 0}
+		switch rapid.IntRange(0, 9).Draw(t, "pathVariant") {
+		case 0:
+			c.DotPath, c.RelPath = false, rapid.SampledFrom([]string{"bin", "./bin", "a/b"}).Draw(t, "rel")
+		case 1, 2:
+			c.DotPath, c.Switch = false, true
+		}
 		if c.Position == "identity" {
 			c.Name = strings.ToUpper(c.Name)
 			if rapid.IntRange(0, 9).Draw(t, "keepCase") == 0 {
